@@ -2,7 +2,43 @@
 
 package cdi
 
+import (
+	"encoding/json"
+	"os"
+	"sync"
+)
+
 // Verification hooks, compiled in only with the "verif" build tag.
+
+// With CDI_VERIF_TRACE=<file> in the environment every completed refresh is
+// appended to that file (one JSON object per line), whatever program or test
+// the package is linked into.
+func init() {
+	path := os.Getenv("CDI_VERIF_TRACE")
+	if path == "" {
+		return
+	}
+	var mu sync.Mutex
+	VerifHook = func(point string, args ...interface{}) {
+		if point != "refresh.done" || len(args) == 0 {
+			return
+		}
+		c, ok := args[0].(*Cache)
+		if !ok {
+			return
+		}
+		line, err := json.Marshal(VerifIndex(c))
+		if err != nil {
+			return
+		}
+		mu.Lock()
+		defer mu.Unlock()
+		if f, err := os.OpenFile(path, os.O_APPEND|os.O_CREATE|os.O_WRONLY, 0o644); err == nil {
+			_, _ = f.Write(append(line, '\n'))
+			_ = f.Close()
+		}
+	}
+}
 
 // VerifHook, when set, is called at named points of the code. It must be
 // set before the code it observes runs.
@@ -25,7 +61,11 @@ func VerifIndex(c *Cache) map[string]interface{} {
 	specs := []interface{}{}
 	for vendor, list := range c.specs {
 		for _, s := range list {
-			specs = append(specs, map[string]interface{}{"vendor": vendor, "class": s.GetClass(), "path": s.GetPath(), "priority": s.GetPriority()})
+			names := []string{}
+			for name := range s.devices {
+				names = append(names, name)
+			}
+			specs = append(specs, map[string]interface{}{"vendor": vendor, "class": s.GetClass(), "path": s.GetPath(), "priority": s.GetPriority(), "devices": names})
 		}
 	}
 	errs := []string{}
